@@ -1,5 +1,12 @@
 import Dashu.Proofs.Trans.Series
 import Dashu.Proofs.Trans.SeriesBound
+import Dashu.Proofs.Trans.SumStage
+import Dashu.Proofs.Trans.IacothSum
+import Dashu.Proofs.Trans.LnSum
+import Dashu.Proofs.Trans.SumExp
+import Dashu.Proofs.Trans.StopTest
+import Dashu.Proofs.Trans.PowfFlag
+import Dashu.Proofs.Trans.PowfOne
 /-
   C11 — the MIRRORED numerical bodies of `float/src/exp.rs` / `float/src/log.rs`
   (`Model/Trans/Series.lean`: `expBody`, `lnBody`, `iacoth`, `ln2`, `ln10`, `lnBase`, `powfBody`, executed by the
@@ -23,7 +30,17 @@ import Dashu.Proofs.Trans.SeriesBound
 
   Also a step bound for the loop of `iacoth` (all terms positive; `iacothLoop_step_bound`, theorem only).
   NOT proved (see `vlib/props/c11.py` FRONTIER): step bounds for the atanh loop of `ln_internal` and for the
-  unscaled `exp_m1` branch (terms of either sign), and the accumulated error of the partial SUM.
+  unscaled `exp_m1` branch (terms of either sign).
+
+  Round 6: the error of `sum += increase` (`sum_add_error`: `FBig + FBig` of positive operands of ANY length is the exact
+  sum up to two relative errors, also in the far-apart branch of `repr_add_large_small`) and the ACCUMULATED error of the
+  partial sum of the Maclaurin loop (`expSum_error`, `expLoop_result_error`: a returned `(sum, k)` is `Σ_{j<k} r^j/j!` up to
+  `2(k−2)+2` relative errors `B^(1−w)`); the zero-operand arms of `FBig ± FBig` as repaired by /repo 164990d
+  (`fAddSub_zero_operand`, `fAddSub_zero_fits`); the same chain for the loop of `iacoth` (`iacothTerms_error`,
+  `iacothSum_error`, `iacothLoop_result_error`: a returned `(sum, k = 2j+3)` is `Σ_{l≤j} inv·inv2^l/(2l+1)` up to `2j+4` errors)
+  and, the recursion being the same, for the atanh loop of `ln_internal` with a positive `z` (`lnLoop_result_error`).
+  Against the REAL exponential (`expLoop_result_vs_exp`): `|sum − exp r| ≤ 2Kε·exp r + 2·r^k/k!` for the returned `(sum, k)`;
+  with the stop test composed in (`expLoop_stage_error`): `|sum − exp r| ≤ 2Kε·exp r + 4·B^(−w)·sum`.
 -/
 namespace Dashu.Props.C11Series
 open Dashu.Model.Float Dashu.Model.Trans
@@ -303,5 +320,315 @@ example : ∃ res, iacothLoop E10 6 ⟨⟨277779, -7⟩, 6⟩ 9 ⟨⟨166667, -6
   iacothLoop_step_bound E10 (by decide) coarseNone_sound (exactEst_dub_sound 10) 1 (exactEst_dlb_tight 10)
     ⟨⟨277779, -7⟩, 6⟩ 6 1 (by decide) rfl (by decide +kernel) (by decide +kernel) (-1) 9 ⟨⟨166667, -6⟩, 6⟩ ⟨⟨166667, -6⟩, 6⟩ 3 0
     rfl (by decide +kernel) (by decide +kernel) (by decide +kernel) rfl (by decide) (by decide) (by decide)
+
+
+/-! ### Round 6: error of `sum += increase`, accumulated error of the partial sum, zero-operand arms of `FBig ± FBig` -/
+
+open Dashu.Proofs.Trans.SumStage in
+/-- **error of one `sum += increase`**: `FBig + FBig` of two positive operands of ANY length (the quotient `increase` may
+    carry `P+1` digits) at the max context `P ≥ 1`, every mode, every sound `digits_ub`, is the exact sum up to two relative
+    errors `B^(1−P)` (one in the aligned branches of `repr_add_large_small`, two in its far-apart branch where the small
+    operand is replaced by a sticky unit before the rounding) -/
+theorem sum_add_error (E : Env) (hB : 2 ≤ E.B) (hc : CoarseSound E.c) (hdub : DubSound E.B E.est.dub) (x y : FBigM)
+    (hp : 1 ≤ ctxMaxP x.prec y.prec) (hx : 0 < x.repr.signif) (hy : 0 < y.repr.signif) :
+    Approx (bpowQ E.B (1 - (ctxMaxP x.prec y.prec : Int))) 2 ((fAddSub E x y 1).repr.toRat E.B)
+      (x.repr.toRat E.B + y.repr.toRat E.B) :=
+  fAddSub_pos_error E hB hc hdub x y hp hx hy
+
+open Dashu.Proofs.Trans.SeriesBound Dashu.Proofs.Trans.SumStage in
+/-- **accumulated error of the partial sum of the Maclaurin loop** (reduced argument `r > 0` held at `w ≥ 1` digits):
+    the sum the loop holds before the step with index `k = i + 2` (`expSumState`: `1 + r`, then `sum += increase` with the
+    terms of `expTerms_error`) is `≥ 1`, has a precision `≥ w`, and is `expPartial r i = Σ_{j ≤ i+1} r^j/j!` up to `2i + 2`
+    accumulated relative errors `B^(1−w)` -/
+theorem expSum_error (E : Env) (hB : 2 ≤ E.B) (hc : CoarseSound E.c) (hdub : DubSound E.B E.est.dub) (r : FBigM)
+    (w : Nat) (hw : 1 ≤ w) (hrp : r.prec = w) (hr0 : 0 < r.repr.signif) (i : Nat) :
+    1 ≤ (expSumState E r i).repr.toRat E.B ∧ w ≤ (expSumState E r i).prec ∧
+      Approx (bpowQ E.B (1 - (w : Int))) (2 * i + 2) ((expSumState E r i).repr.toRat E.B)
+        (expPartial (r.repr.toRat E.B) i) :=
+  Dashu.Proofs.Trans.SumStage.expSum_error E hB hc hdub r w hw hrp hr0 i
+
+open Dashu.Proofs.Trans.SeriesBound Dashu.Proofs.Trans.SumStage in
+/-- the exact partial sums, spelled out: `expPartial r 0 = 1 + r`, `expPartial r (i+1) = expPartial r i + r^(i+2)/(i+2)!` -/
+theorem expPartial_eq (r : ℚ) (i : Nat) :
+    expPartial r 0 = 1 + r ∧ expPartial r (i + 1) = expPartial r i + r ^ (i + 2) / ((i + 2).factorial : ℚ) :=
+  ⟨rfl, rfl⟩
+
+open Dashu.Proofs.Trans.SeriesBound Dashu.Proofs.Trans.SumStage in
+/-- whatever the Maclaurin loop returns from a state of its own trajectory is one of the `expSumState`s, with the matching
+    index of the last term -/
+theorem expLoop_result (E : Env) (r : FBigM) (fuel i : Nat) (res : FBigM × Nat)
+    (h : expLoop E r fuel (expState E r i).1 (expState E r i).2 (expSumState E r i) (i + 2) = .ok (some res)) :
+    ∃ j, i ≤ j ∧ res = (expSumState E r j, j + 2) :=
+  Dashu.Proofs.Trans.SumStage.expLoop_result E r fuel i res h
+
+open Dashu.Proofs.Trans.SumStage in
+/-- **what the Maclaurin loop of `exp_internal` returns** from its entry state (`factorial = 1`, `pow = r`, `sum = 1 + r`,
+    `k = 2`), with any fuel: `k ≥ 2`, `sum ≥ 1`, and `sum = Σ_{j<k} r^j/j!` up to `2(k−2) + 2` accumulated relative errors
+    `B^(1−w)`.  (The truncation error of the series is what the stop test bounds; together with `expLoop_step_bound` —
+    `k ≤ (w+cS)/u + 2` — the rounding part is at most `(2(w+cS)/u + 2)·B^(1−w)` relative, to first order.) -/
+theorem expLoop_result_error (E : Env) (hB : 2 ≤ E.B) (hc : CoarseSound E.c) (hdub : DubSound E.B E.est.dub) (r : FBigM)
+    (w : Nat) (hw : 1 ≤ w) (hrp : r.prec = w) (hr0 : 0 < r.repr.signif) (fuel : Nat) (res : FBigM × Nat)
+    (h : expLoop E r fuel 1 r (fAddSub E FBigM.one r 1) 2 = .ok (some res)) :
+    2 ≤ res.2 ∧ 1 ≤ res.1.repr.toRat E.B ∧
+      Approx (bpowQ E.B (1 - (w : Int))) (2 * (res.2 - 2) + 2) (res.1.repr.toRat E.B)
+        (expPartial (r.repr.toRat E.B) (res.2 - 2)) :=
+  Dashu.Proofs.Trans.SumStage.expLoop_result_error E hB hc hdub r w hw hrp hr0 fuel res h
+
+/-- `FBig ± FBig` with a zero operand (`add_val_val` &c. as repaired by /repo 164990d): the other operand ROUNDED to the
+    max context (`context.repr_round(..).value()`), no longer returned as it is -/
+theorem fAddSub_zero_operand (E : Env) (x y : FBigM) (rs : Int) :
+    (x.repr.isZero = true →
+      (fAddSub E x y rs).repr = (reprRound E.B E.m E.c (ctxMaxP x.prec y.prec) ⟨rs * y.repr.signif, y.repr.exp⟩).1) ∧
+    (x.repr.isZero = false → y.repr.isZero = true →
+      (fAddSub E x y rs).repr = (reprRound E.B E.m E.c (ctxMaxP x.prec y.prec) x.repr).1) :=
+  Dashu.Proofs.Trans.SumStage.fAddSub_zero_operand E x y rs
+
+/-- … and `x ± 0 = x` whenever `x` fits the max context (all the mirrored series ever hand to this arm) -/
+theorem fAddSub_zero_fits (E : Env) (x y : FBigM) (rs : Int) (hx : x.repr.isZero = false) (hy : y.repr.isZero = true)
+    (h : x.repr.digits E.B ≤ ctxMaxP x.prec y.prec) : (fAddSub E x y rs).repr = x.repr :=
+  Dashu.Proofs.Trans.SumStage.fAddSub_zero_fits E x y rs hx hy h
+
+/-- non-vacuity of `expLoop_result_error` (and of `sum_add_error` through it): base 10, `r = 0.005` at 6 digits, fuel 5 —
+    the loop does return, and what it returns carries the stated error bound -/
+example : ∃ res, expLoop E10 ⟨⟨5, -3⟩, 6⟩ 5 1 ⟨⟨5, -3⟩, 6⟩ (fAddSub E10 FBigM.one ⟨⟨5, -3⟩, 6⟩ 1) 2 = .ok (some res) ∧
+    Approx (bpowQ 10 (1 - 6)) (2 * (res.2 - 2) + 2) (res.1.repr.toRat 10)
+      (Dashu.Proofs.Trans.SumStage.expPartial ((⟨5, -3⟩ : FRepr).toRat 10) (res.2 - 2)) := by
+  obtain ⟨res, h, _, _⟩ := expLoop_step_bound E10 (by decide) coarseNone_sound (exactEst_dub_sound 10) 1
+    (exactEst_dlb_tight 10) ⟨⟨5, -3⟩, 6⟩ 6 2 (by decide) rfl (by decide) (by decide +kernel) 5 (by decide) (by decide)
+  exact ⟨res, h, (expLoop_result_error E10 (by decide) coarseNone_sound (exactEst_dub_sound 10) ⟨⟨5, -3⟩, 6⟩ 6 (by decide) rfl
+    (by decide) 5 res h).2.2⟩
+
+/-- non-vacuity of the far-apart branch of `sum_add_error`: `1.005 + 1.2345e-12` at 4 digits -/
+example : Approx (bpowQ 10 (1 - 4)) 2 ((fAddSub E10 ⟨⟨1005, -3⟩, 4⟩ ⟨⟨12345, -16⟩, 4⟩ 1).repr.toRat 10)
+    ((⟨1005, -3⟩ : FRepr).toRat 10 + (⟨12345, -16⟩ : FRepr).toRat 10) :=
+  sum_add_error E10 (by decide) coarseNone_sound (exactEst_dub_sound 10) ⟨⟨1005, -3⟩, 4⟩ ⟨⟨12345, -16⟩, 4⟩ (by decide)
+    (by decide) (by decide)
+
+
+/-! ### Round 6: terms and accumulated partial sum of the loop of `Context::iacoth` -/
+
+open Dashu.Proofs.Trans.SeriesBound Dashu.Proofs.Trans.IacothSum in
+/-- **the terms of `iacoth` as the loop computes them** (`pow *= &inv2; increase = &pow / k`, `k = 2i + 3`; `inv`, `inv2`
+    positive, held at `w ≥ 2` digits): `pow` after `i` multiplications (`iaPow`) is `inv·inv2^i` up to `i` relative errors
+    `B^(1−w)`; the term is positive, held at `w` digits and is `inv·inv2^(i+1)/(2i+3)` up to `i + 4` errors (one per
+    multiplication, one for the quotient, two because the divisor `convert_int(k)` is itself rounded to `w` digits) -/
+theorem iacothTerms_error (E : Env) (hB : 2 ≤ E.B) (hc : CoarseSound E.c) (inv inv2 : FBigM) (w : Nat) (hw2 : 2 ≤ w)
+    (h1 : inv.prec = w) (h2 : inv2.prec = w) (hi : 0 < inv.repr.signif) (hi2 : 0 < inv2.repr.signif) (i : Nat) :
+    Approx (bpowQ E.B (1 - (w : Int))) i ((iaPow E inv inv2 i).repr.toRat E.B)
+      (inv.repr.toRat E.B * (inv2.repr.toRat E.B) ^ i) ∧
+    ∃ inc, iaInc E w inv inv2 i = .ok inc ∧ inc.prec = w ∧ 0 < inc.repr.toRat E.B ∧
+      Approx (bpowQ E.B (1 - (w : Int))) (i + 4) (inc.repr.toRat E.B)
+        (inv.repr.toRat E.B * (inv2.repr.toRat E.B) ^ (i + 1) / ((2 * i + 3 : Nat) : ℚ)) :=
+  ⟨(iaPow_error E hB hc inv inv2 w (by omega) h1 h2 hi hi2 i).2,
+   iaInc_spec E hB hc inv inv2 w (by omega) h1 h2 hi hi2 hw2 i⟩
+
+open Dashu.Proofs.Trans.IacothSum in
+/-- the states and the exact partial sums, spelled out -/
+theorem iacothStates_eq (E : Env) (w : Nat) (inv inv2 : FBigM) (v q : ℚ) (i : Nat) :
+    iaPow E inv inv2 0 = inv ∧ iaPow E inv inv2 (i + 1) = fMul E (iaPow E inv inv2 i) inv2 ∧
+    iaInc E w inv inv2 i = fDiv E (iaPow E inv inv2 (i + 1)) (fConvertInt E w ((2 * i + 3 : Nat) : Int)) ∧
+    iaSum E w inv inv2 0 = inv ∧
+    iaPartial v q 0 = v ∧ iaPartial v q (i + 1) = iaPartial v q i + v * q ^ (i + 1) / ((2 * i + 3 : Nat) : ℚ) :=
+  ⟨rfl, rfl, rfl, rfl, rfl, rfl⟩
+
+open Dashu.Proofs.Trans.IacothSum in
+/-- **accumulated error of the partial sum of `iacoth`**: `sum` before the step `k = 2i + 3` (`iaSum`) is positive, held at `w`
+    digits and is `iaPartial inv inv2 i = Σ_{j ≤ i} inv·inv2^j/(2j+1)` up to `2i + 4` accumulated relative errors `B^(1−w)` -/
+theorem iacothSum_error (E : Env) (hB : 2 ≤ E.B) (hc : CoarseSound E.c) (hdub : DubSound E.B E.est.dub)
+    (inv inv2 : FBigM) (w : Nat) (hw2 : 2 ≤ w) (h1 : inv.prec = w) (h2 : inv2.prec = w) (hi : 0 < inv.repr.signif)
+    (hi2 : 0 < inv2.repr.signif) (i : Nat) :
+    bpowQ E.B (inv.repr.exp + (digitsI E.B inv.repr.signif : Int) - 1) ≤ (iaSum E w inv inv2 i).repr.toRat E.B ∧
+    (iaSum E w inv inv2 i).prec = w ∧
+    Approx (bpowQ E.B (1 - (w : Int))) (2 * i + 4) ((iaSum E w inv inv2 i).repr.toRat E.B)
+      (iaPartial (inv.repr.toRat E.B) (inv2.repr.toRat E.B) i) :=
+  iaSum_error E hB hc inv inv2 w (by omega) h1 h2 hi hi2 hdub hw2 i
+
+open Dashu.Proofs.Trans.IacothSum in
+/-- whatever the loop of `iacoth` returns from a state of its own trajectory is one of the `iaSum`s, with the matching `k` -/
+theorem iacothLoop_result (E : Env) (w : Nat) (inv inv2 : FBigM) (fuel i : Nat) (res : FBigM × Nat)
+    (h : iacothLoop E w inv2 fuel (iaPow E inv inv2 i) (iaSum E w inv inv2 i) (2 * i + 3) = .ok (some res)) :
+    ∃ j, i ≤ j ∧ res = (iaSum E w inv inv2 j, 2 * j + 3) :=
+  Dashu.Proofs.Trans.IacothSum.iacothLoop_result E w inv inv2 fuel i res h
+
+open Dashu.Proofs.Trans.IacothSum in
+/-- **what the loop of `Context::iacoth` returns** from its entry state (`pow = sum = inv`, `k = 3`), with any fuel:
+    `k = 2j + 3`, `sum > 0`, and `sum = Σ_{l ≤ j} inv·inv2^l/(2l+1)` up to `2j + 4` accumulated relative errors `B^(1−w)`
+    (`w = p + guard_digits + 2 ≥ 2` in `iacoth`; with `iacothLoop_step_bound` the number of terms is explicit) -/
+theorem iacothLoop_result_error (E : Env) (hB : 2 ≤ E.B) (hc : CoarseSound E.c) (hdub : DubSound E.B E.est.dub)
+    (inv inv2 : FBigM) (w : Nat) (hw2 : 2 ≤ w) (h1 : inv.prec = w) (h2 : inv2.prec = w) (hi : 0 < inv.repr.signif)
+    (hi2 : 0 < inv2.repr.signif) (fuel : Nat) (res : FBigM × Nat)
+    (h : iacothLoop E w inv2 fuel inv inv 3 = .ok (some res)) :
+    ∃ j, res.2 = 2 * j + 3 ∧ 0 < res.1.repr.toRat E.B ∧
+      Approx (bpowQ E.B (1 - (w : Int))) (2 * j + 4) (res.1.repr.toRat E.B)
+        (iaPartial (inv.repr.toRat E.B) (inv2.repr.toRat E.B) j) :=
+  Dashu.Proofs.Trans.IacothSum.iacothLoop_result_error E hB hc hdub inv inv2 w hw2 h1 h2 hi hi2 fuel res h
+
+/-- non-vacuity of `iacothLoop_result_error`: base 10, `iacoth(6)` at `w = 6` (`inv = 0.166667`, `inv2 = 0.0277779`), fuel 9 -/
+example : ∃ res, iacothLoop E10 6 ⟨⟨277779, -7⟩, 6⟩ 9 ⟨⟨166667, -6⟩, 6⟩ ⟨⟨166667, -6⟩, 6⟩ 3 = .ok (some res) ∧
+    ∃ j, res.2 = 2 * j + 3 ∧ Approx (bpowQ 10 (1 - 6)) (2 * j + 4) (res.1.repr.toRat 10)
+      (Dashu.Proofs.Trans.IacothSum.iaPartial ((⟨166667, -6⟩ : FRepr).toRat 10) ((⟨277779, -7⟩ : FRepr).toRat 10) j) := by
+  obtain ⟨res, h, _, _⟩ := iacothLoop_step_bound E10 (by decide) coarseNone_sound (exactEst_dub_sound 10) 1
+    (exactEst_dlb_tight 10) ⟨⟨277779, -7⟩, 6⟩ 6 1 (by decide) rfl (by decide +kernel) (by decide +kernel) (-1) 9
+    ⟨⟨166667, -6⟩, 6⟩ ⟨⟨166667, -6⟩, 6⟩ 3 0 rfl (by decide +kernel) (by decide +kernel) (by decide +kernel) rfl (by decide)
+    (by decide) (by decide)
+  obtain ⟨j, hj, _, hA⟩ := iacothLoop_result_error E10 (by decide) coarseNone_sound (exactEst_dub_sound 10)
+    ⟨⟨166667, -6⟩, 6⟩ ⟨⟨277779, -7⟩, 6⟩ 6 (by decide) rfl rfl (by decide) (by decide) 9 res h
+  exact ⟨res, h, j, hj, hA⟩
+
+
+/-! ### Round 6: the atanh loop of `ln_internal` (same recursion as the loop of `iacoth`, other stop test) -/
+
+open Dashu.Proofs.Trans.IacothSum in
+/-- whatever the atanh loop returns from a state of its own trajectory is one of the `iaSum`s (`inv := z`, `inv2 := z2`) -/
+theorem lnLoop_result (E : Env) (w : Nat) (z z2 : FBigM) (fuel i : Nat) (res : FBigM × Nat)
+    (h : lnLoop E w z2 fuel (iaPow E z z2 i) (iaSum E w z z2 i) (2 * i + 3) = .ok (some res)) :
+    ∃ j, i ≤ j ∧ res = (iaSum E w z z2 j, 2 * j + 3) :=
+  Dashu.Proofs.Trans.LnSum.lnLoop_result E w z z2 fuel i res h
+
+open Dashu.Proofs.Trans.IacothSum in
+/-- **what the atanh loop of `ln_internal` returns** for a positive `z = (x−1)/(x+1)` (scaled `x > 1`), from its entry state
+    (`pow = sum = z`, `k = 3`), any fuel: `k = 2j + 3`, `sum > 0` and `sum = Σ_{l ≤ j} z·z2^l/(2l+1)` up to `2j + 4`
+    accumulated relative errors `B^(1−w)` (`w ≥ 2`; relative to the values `z`, `z2` the loop holds) -/
+theorem lnLoop_result_error (E : Env) (hB : 2 ≤ E.B) (hc : CoarseSound E.c) (hdub : DubSound E.B E.est.dub)
+    (z z2 : FBigM) (w : Nat) (hw2 : 2 ≤ w) (h1 : z.prec = w) (h2 : z2.prec = w) (hz : 0 < z.repr.signif)
+    (hz2 : 0 < z2.repr.signif) (fuel : Nat) (res : FBigM × Nat)
+    (h : lnLoop E w z2 fuel z z 3 = .ok (some res)) :
+    ∃ j, res.2 = 2 * j + 3 ∧ 0 < res.1.repr.toRat E.B ∧
+      Approx (bpowQ E.B (1 - (w : Int))) (2 * j + 4) (res.1.repr.toRat E.B)
+        (iaPartial (z.repr.toRat E.B) (z2.repr.toRat E.B) j) :=
+  Dashu.Proofs.Trans.LnSum.lnLoop_result_error E hB hc hdub z z2 w hw2 h1 h2 hz hz2 fuel res h
+
+/-- non-vacuity of `lnLoop_result_error`: base 10, `z = 0.333333`, `z2 = 0.111111` at 6 digits, fuel 30: the loop returns -/
+example : ∃ res, lnLoop E10 6 ⟨⟨111111, -6⟩, 6⟩ 30 ⟨⟨333333, -6⟩, 6⟩ ⟨⟨333333, -6⟩, 6⟩ 3 = .ok (some res) ∧
+    ∃ j, res.2 = 2 * j + 3 ∧ Approx (bpowQ 10 (1 - 6)) (2 * j + 4) (res.1.repr.toRat 10)
+      (Dashu.Proofs.Trans.IacothSum.iaPartial ((⟨333333, -6⟩ : FRepr).toRat 10) ((⟨111111, -6⟩ : FRepr).toRat 10) j) := by
+  have hb : (match lnLoop E10 6 ⟨⟨111111, -6⟩, 6⟩ 30 ⟨⟨333333, -6⟩, 6⟩ ⟨⟨333333, -6⟩, 6⟩ 3 with
+      | .ok (some _) => true | _ => false) = true := by decide +kernel
+  cases hl : lnLoop E10 6 ⟨⟨111111, -6⟩, 6⟩ 30 ⟨⟨333333, -6⟩, 6⟩ ⟨⟨333333, -6⟩, 6⟩ 3 with
+  | error e => rw [hl] at hb; simp at hb
+  | ok o =>
+    cases o with
+    | none => rw [hl] at hb; simp at hb
+    | some res =>
+      obtain ⟨j, hj, _, hA⟩ := lnLoop_result_error E10 (by decide) coarseNone_sound (exactEst_dub_sound 10)
+        ⟨⟨333333, -6⟩, 6⟩ ⟨⟨111111, -6⟩, 6⟩ 6 (by decide) rfl rfl (by decide) (by decide) 30 res hl
+      exact ⟨res, rfl, j, hj, hA⟩
+
+
+/-! ### Round 6: the returned partial sum against `Real.exp` -/
+
+open Dashu.Proofs.Trans.SumStage in
+/-- the exact partial sums enclose `exp r` for a rational `0 ≤ r ≤ 1`: `Σ_{j<i+2} r^j/j! ≤ exp r ≤ Σ + 2·r^(i+2)/(i+2)!` -/
+theorem expPartial_encloses_exp (r : ℚ) (hr : 0 ≤ r) (hr1 : r ≤ 1) (i : Nat) :
+    ((expPartial r i : ℚ) : ℝ) ≤ Real.exp (r : ℝ) ∧
+    Real.exp (r : ℝ) ≤ ((expPartial r i : ℚ) : ℝ) + ((2 * (r ^ (i + 2) / ((i + 2).factorial : ℚ)) : ℚ) : ℝ) :=
+  ⟨Dashu.Proofs.Trans.SumExp.expPartial_le_exp r hr i, Dashu.Proofs.Trans.SumExp.exp_le_expPartial r hr hr1 i⟩
+
+/-- **the sum the Maclaurin loop of `exp_internal` returns, against the real `exp r`** (reduced argument `0 < r ≤ 1` held at
+    `w ≥ 1` digits; every mode; `DubSound`, `CoarseSound`): with `K = 2(k−2)+2`, `ε = B^(1−w)` and `2Kε ≤ 1`,
+    `|sum − exp r| ≤ 2Kε·exp r + 2·r^k/k!` — accumulated rounding error of all `*`, `/`, `+` of the loop plus the truncation
+    error of the series (Mathlib `Real.exp_bound'`).  With `expLoop_step_bound` (`k ≤ (w+cS)/u + 2`) `K` is explicit. -/
+theorem expLoop_result_vs_exp (E : Env) (hB : 2 ≤ E.B) (hc : CoarseSound E.c) (hdub : DubSound E.B E.est.dub) (r : FBigM)
+    (w : Nat) (hw : 1 ≤ w) (hrp : r.prec = w) (hr0 : 0 < r.repr.signif) (hr1 : r.repr.toRat E.B ≤ 1)
+    (fuel : Nat) (res : FBigM × Nat) (h : expLoop E r fuel 1 r (fAddSub E FBigM.one r 1) 2 = .ok (some res))
+    (hK : 2 * ((2 * (res.2 - 2) + 2 : ℕ) : ℚ) * bpowQ E.B (1 - (w : Int)) ≤ 1) :
+    |((res.1.repr.toRat E.B : ℚ) : ℝ) - Real.exp ((r.repr.toRat E.B : ℚ) : ℝ)| ≤
+      ((2 * ((2 * (res.2 - 2) + 2 : ℕ) : ℚ) * bpowQ E.B (1 - (w : Int)) : ℚ) : ℝ) * Real.exp ((r.repr.toRat E.B : ℚ) : ℝ)
+        + ((2 * ((r.repr.toRat E.B) ^ res.2 / (res.2.factorial : ℚ)) : ℚ) : ℝ) :=
+  Dashu.Proofs.Trans.SumExp.expLoop_result_vs_exp E hB hc hdub r w hw hrp hr0 hr1 fuel res h hK
+
+/-- non-vacuity of `expLoop_result_vs_exp`: base 10, `r = 0.005` at 6 digits, fuel 5: the loop returns with `k ≤ 4`, so
+    `K ≤ 6` and `2Kε ≤ 1.2e-4` -/
+example : ∃ res, expLoop E10 ⟨⟨5, -3⟩, 6⟩ 5 1 ⟨⟨5, -3⟩, 6⟩ (fAddSub E10 FBigM.one ⟨⟨5, -3⟩, 6⟩ 1) 2 = .ok (some res) ∧
+    |((res.1.repr.toRat 10 : ℚ) : ℝ) - Real.exp (((⟨5, -3⟩ : FRepr).toRat 10 : ℚ) : ℝ)| ≤
+      ((2 * ((2 * (res.2 - 2) + 2 : ℕ) : ℚ) * bpowQ 10 (1 - ((6 : ℕ) : Int)) : ℚ) : ℝ) *
+          Real.exp (((⟨5, -3⟩ : FRepr).toRat 10 : ℚ) : ℝ)
+        + ((2 * (((⟨5, -3⟩ : FRepr).toRat 10) ^ res.2 / (res.2.factorial : ℚ)) : ℚ) : ℝ) := by
+  obtain ⟨res, h, hk2, hk⟩ := expLoop_step_bound E10 (by decide) coarseNone_sound (exactEst_dub_sound 10) 1
+    (exactEst_dlb_tight 10) ⟨⟨5, -3⟩, 6⟩ 6 2 (by decide) rfl (by decide) (by decide +kernel) 5 (by decide) (by decide)
+  have hK6 : ((2 * (res.2 - 2) + 2 : ℕ) : ℚ) ≤ 6 := by exact_mod_cast (by omega : 2 * (res.2 - 2) + 2 ≤ 6)
+  have he : bpowQ 10 (1 - ((6 : ℕ) : Int)) = 1 / 100000 := by decide +kernel
+  have hK : 2 * ((2 * (res.2 - 2) + 2 : ℕ) : ℚ) * bpowQ 10 (1 - ((6 : ℕ) : Int)) ≤ 1 := by rw [he]; linarith
+  exact ⟨res, h, expLoop_result_vs_exp E10 (by decide) coarseNone_sound (exactEst_dub_sound 10) ⟨⟨5, -3⟩, 6⟩ 6 (by decide) rfl
+    (by decide) (by decide +kernel) 5 res h hK⟩
+
+
+/-! ### Round 6: the stop test composed with rounding and truncation — one bound for the Maclaurin stage -/
+
+/-- the stop test `|increase| <= sum.sub_ulp()` (`reprAbsCmp … ≠ .gt` against a threshold `1·B^e`) as an inequality of values -/
+theorem stop_test_value (B : Nat) (hB : 2 ≤ B) (a : FRepr) (e : Int) (h0 : 0 < a.signif)
+    (h : reprAbsCmp B a ⟨1, e⟩ ≠ .gt) : a.toRat B ≤ bpowQ B e :=
+  Dashu.Proofs.Trans.StopTest.val_le_of_reprAbsCmp_ne_gt B hB a e h0 h
+
+open Dashu.Proofs.Trans.SeriesBound Dashu.Proofs.Trans.SumStage in
+/-- what the Maclaurin loop returns, WITH the stop test that made it return: the term `increase` of the last step did not
+    exceed `sum.sub_ulp()` -/
+theorem expLoop_stop (E : Env) (r : FBigM) (fuel i : Nat) (res : FBigM × Nat)
+    (h : expLoop E r fuel (expState E r i).1 (expState E r i).2 (expSumState E r i) (i + 2) = .ok (some res)) :
+    ∃ j inc, i ≤ j ∧ expInc E r j = .ok inc ∧
+      reprAbsCmp E.B inc.repr (fSubUlp E (expSumState E r j)) ≠ .gt ∧ res = (expSumState E r j, j + 2) :=
+  Dashu.Proofs.Trans.StopTest.expLoop_stop E r fuel i res h
+
+/-- **one bound for the Maclaurin stage of `exp_internal`**: reduced argument `0 < r ≤ 1` held at `w ≥ 1` digits, sound
+    `digits_lb` / `digits_ub` / coarse test; the returned `(sum, k)` with `K = 2(k−2)+2`, `ε = B^(1−w)`, `2Kε ≤ 1`, `kε ≤ 1/2`
+    satisfies `|sum − exp r| ≤ 2Kε·exp r + 4·B^(−w)·sum` — every rounding of the loop, the truncation of the series and the
+    stop test composed.  (Not yet composed with the reduction `x = s·ln B + r` and the final powering, see FRONTIER.) -/
+theorem expLoop_stage_error (E : Env) (hB : 2 ≤ E.B) (hc : CoarseSound E.c) (hdub : DubSound E.B E.est.dub)
+    (hdlb : DlbSound E.B E.est.dlb) (r : FBigM)
+    (w : Nat) (hw : 1 ≤ w) (hrp : r.prec = w) (hr0 : 0 < r.repr.signif) (hr1 : r.repr.toRat E.B ≤ 1)
+    (fuel : Nat) (res : FBigM × Nat) (h : expLoop E r fuel 1 r (fAddSub E FBigM.one r 1) 2 = .ok (some res))
+    (hK : 2 * ((2 * (res.2 - 2) + 2 : ℕ) : ℚ) * bpowQ E.B (1 - (w : Int)) ≤ 1)
+    (hk : (res.2 : ℚ) * bpowQ E.B (1 - (w : Int)) ≤ 1 / 2) :
+    |((res.1.repr.toRat E.B : ℚ) : ℝ) - Real.exp ((r.repr.toRat E.B : ℚ) : ℝ)| ≤
+      ((2 * ((2 * (res.2 - 2) + 2 : ℕ) : ℚ) * bpowQ E.B (1 - (w : Int)) : ℚ) : ℝ) * Real.exp ((r.repr.toRat E.B : ℚ) : ℝ)
+        + ((4 * bpowQ E.B (-(w : Int)) * res.1.repr.toRat E.B : ℚ) : ℝ) :=
+  Dashu.Proofs.Trans.StopTest.expLoop_stage_error E hB hc hdub hdlb r w hw hrp hr0 hr1 fuel res h hK hk
+
+/-- non-vacuity of `expLoop_stage_error`: base 10, `r = 0.005` at 6 digits, fuel 5 (`k ≤ 4`) -/
+example : ∃ res, expLoop E10 ⟨⟨5, -3⟩, 6⟩ 5 1 ⟨⟨5, -3⟩, 6⟩ (fAddSub E10 FBigM.one ⟨⟨5, -3⟩, 6⟩ 1) 2 = .ok (some res) ∧
+    |((res.1.repr.toRat 10 : ℚ) : ℝ) - Real.exp (((⟨5, -3⟩ : FRepr).toRat 10 : ℚ) : ℝ)| ≤
+      ((2 * ((2 * (res.2 - 2) + 2 : ℕ) : ℚ) * bpowQ 10 (1 - ((6 : ℕ) : Int)) : ℚ) : ℝ) *
+          Real.exp (((⟨5, -3⟩ : FRepr).toRat 10 : ℚ) : ℝ)
+        + ((4 * bpowQ 10 (-((6 : ℕ) : Int)) * res.1.repr.toRat 10 : ℚ) : ℝ) := by
+  obtain ⟨res, h, hk2, hk⟩ := expLoop_step_bound E10 (by decide) coarseNone_sound (exactEst_dub_sound 10) 1
+    (exactEst_dlb_tight 10) ⟨⟨5, -3⟩, 6⟩ 6 2 (by decide) rfl (by decide) (by decide +kernel) 5 (by decide) (by decide)
+  have hK6 : ((2 * (res.2 - 2) + 2 : ℕ) : ℚ) ≤ 6 := by exact_mod_cast (by omega : 2 * (res.2 - 2) + 2 ≤ 6)
+  have hk4 : ((res.2 : ℕ) : ℚ) ≤ 4 := by exact_mod_cast (by omega : res.2 ≤ 4)
+  have he : bpowQ 10 (1 - ((6 : ℕ) : Int)) = 1 / 100000 := by decide +kernel
+  have hK : 2 * ((2 * (res.2 - 2) + 2 : ℕ) : ℚ) * bpowQ 10 (1 - ((6 : ℕ) : Int)) ≤ 1 := by rw [he]; linarith
+  have hkk : ((res.2 : ℕ) : ℚ) * bpowQ 10 (1 - ((6 : ℕ) : Int)) ≤ 1 / 2 := by rw [he]; linarith
+  exact ⟨res, h, expLoop_stage_error E10 (by decide) coarseNone_sound (exactEst_dub_sound 10) (fun _ => Nat.sub_le _ _)
+    ⟨⟨5, -3⟩, 6⟩ 6 (by decide) rfl (by decide) (by decide +kernel) 5 res h hK hkk⟩
+
+
+/-! ### Round 6: the exactness clause for `powf` on the mirror -/
+
+/-- **`Context::powf` (mirror behind its entry guards) flags `Exact` only for base `1`** — the flag chain
+    `ln(base).and_then(mul).and_then(exp)` then `with_precision` ends `Exact` only if every link is `Exact`, and `ln_internal` is
+    `Exact` only on its shortcut `ln 1 = 0` (`lnFull_exact_only_shortcut`); `1^y = 1` is an exact result.  (The exponents
+    `0`, `1` and base `0` are entry guards: `powf_zero_exact`, `powf_one_round` in `Props/C11`.) -/
+theorem powfBody_exact_only_base_one (fuel : Nat) (E : Env) (p : Nat) (base exp : FRepr) (v : FBigM) (tr : Trace)
+    (h : powfBody fuel E p base exp = .ok ((v, none), tr)) : (base.signif == 1 && base.exp == 0) = true :=
+  Dashu.Proofs.Trans.PowfFlag.powfBody_flag fuel E p base exp v tr h
+
+/-- non-vacuity: `powf(1, 0.5)` at 4 digits does run through the mirrored body and IS flagged `Exact` (so the hypothesis
+    of `powfBody_exact_only_base_one` is met by base 1), while `powf(2, 0.5)` is flagged inexact -/
+example : (match powfBody 60 E10 4 ⟨1, 0⟩ ⟨5, -1⟩ with | .ok r => r.1.2.isNone | .error _ => false) = true := by
+  decide +kernel
+example : (match powfBody 60 E10 4 ⟨2, 0⟩ ⟨5, -1⟩ with | .ok r => r.1.2.isSome | .error _ => false) = true := by
+  decide +kernel
+
+
+/-- `powf(1, y)` through the mirrored body (`ln 1 = 0` exactly, `0·y = 0`, `exp 0 = 1`, `with_precision`): the result is `1`,
+    flagged `Exact`, for every `y`, precision `p ≥ 1`, base, mode -/
+theorem powfBody_base_one (fuel : Nat) (E : Env) (hB : 2 ≤ E.B) (p : Nat) (hp : 1 ≤ p) (exp : FRepr) :
+    powfBody fuel E p ⟨1, 0⟩ exp = .ok ((⟨⟨1, 0⟩, p⟩, none), ⟨p + powfGuardDigits E.est p ⟨1, 0⟩ exp, 0⟩) :=
+  Dashu.Proofs.Trans.PowfOne.powfBody_base_one fuel E hB p hp exp
+
+/-- **`powf`: Exact only if exact** (mirror behind the entry guards): a result flagged `Exact` has base `1` and IS `1 = 1^y` -/
+theorem powfBody_exact_is_exact (fuel : Nat) (E : Env) (hB : 2 ≤ E.B) (p : Nat) (hp : 1 ≤ p) (base exp : FRepr)
+    (v : FBigM) (tr : Trace) (h : powfBody fuel E p base exp = .ok ((v, none), tr)) :
+    base = ⟨1, 0⟩ ∧ v = ⟨⟨1, 0⟩, p⟩ :=
+  Dashu.Proofs.Trans.PowfOne.powfBody_exact_is_exact fuel E hB p hp base exp v tr h
 
 end Dashu.Props.C11Series
